@@ -693,6 +693,24 @@ fn run_print(cfg: &Config, id: &'static str) -> i32 {
 			}
 			mon.rep.max("widest_printed_value_chars", doc_of(&r).chars().count() as u64);
 		}
+		// multi-line documents of every size class up to a few dozen KiB: runs of line break + indentation
+		// then fall on every offset relative to any power-of-two window a reader may use
+		{
+			let mut n = sh + 1;
+			while n <= 900 {
+				let row = |j: usize| RVal::Arr(vec![RVal::Num(j.to_string()), RVal::Str("x".repeat(j % 11))]);
+				let r = RVal::Obj(vec![("rows".into(), RVal::Arr((0..n).map(row).collect())), ("n".into(), RVal::Num(n.to_string()))]);
+				let v = from_rval(&r);
+				let mut o = POpts::pretty();
+				o.indent = [PIndent::Spaces(2), PIndent::Spaces(7), PIndent::Tabs(1), PIndent::Spaces(4)][n % 4];
+				if n % 3 == 0 {
+					o.array_limit = Some(PLimit::Item(0));
+				}
+				mon.one("sized-multi-line-documents", &r, &v, &o);
+				mon.rep.distinct_by_construction(1);
+				n += 16;
+			}
+		}
 		// nesting of a thousand levels and more (printed and re-read in a thread with a roomy stack:
 		// printing is recursive, only parsing and traversal promise otherwise)
 		if sh >= 10 && sh < 14 {
